@@ -95,13 +95,30 @@ def make_dataset(scan=(4, 3), roi=(8, 8), seed=0, step_px=2, com_fit_function="c
     return pd
 
 
+def make_rng(seed, form="int"):
+    """the seed in one of the forms ``RNGMixin.rng`` accepts: the int itself, a fresh
+    ``np.random.default_rng(seed)`` (its SeedSequence entropy is the seed, up to 128 bit and more) or a fresh
+    ``torch.Generator().manual_seed(seed)`` (seed < 2**64).  None → None (unseeded)."""
+    if seed is None or form == "int":
+        return seed
+    if form == "np_generator":
+        import numpy as np
+        return np.random.default_rng(seed)
+    if form == "torch_generator":
+        import torch
+        return torch.Generator().manual_seed(int(seed))
+    raise ValueError(form)
+
+
 def make_ptycho(scan=(4, 3), roi=(8, 8), seed=0, rng_seed=7, num_probes=1, obj_type="complex", obj_init="uniform",
-                val_ratio=0.0, val_mode="grid", step_px=2, detector_mask=None, obj_padding_px=(0, 0)):
+                val_ratio=0.0, val_mode="grid", step_px=2, detector_mask=None, obj_padding_px=(0, 0), rng_form="int"):
     """A preprocessed real ``Ptychography`` object on CPU (float32/complex64), verbose 0.
 
     ``rng_seed`` is handed to every ``rng=`` argument (``Ptychography.from_models``, the object
     model and the probe model — mixed-state probes draw their random phase ramps from the probe
     model's own generator); None → unseeded.
+    ``rng_form`` selects the form in which the seed reaches the ``rng=`` arguments (see ``make_rng``):
+    "int" | "np_generator" | "torch_generator"; each consumer gets its own fresh object.
     ``obj_init``: "uniform" | "random" (ObjectPixelated.from_uniform / from_random)."""
     import warnings
     from quantem.diffractive_imaging.detector_models import DetectorPixelated
@@ -110,15 +127,15 @@ def make_ptycho(scan=(4, 3), roi=(8, 8), seed=0, rng_seed=7, num_probes=1, obj_t
     from quantem.diffractive_imaging.ptychography import Ptychography
     pd = make_dataset(scan, roi, seed, step_px, detector_mask=detector_mask)
     if obj_init == "random":
-        om = ObjectPixelated.from_random(num_slices=1, obj_type=obj_type, slice_thicknesses=1, rng=rng_seed)
+        om = ObjectPixelated.from_random(num_slices=1, obj_type=obj_type, slice_thicknesses=1, rng=make_rng(rng_seed, rng_form))
     else:
-        om = ObjectPixelated.from_uniform(num_slices=1, obj_type=obj_type, slice_thicknesses=1, rng=rng_seed)
+        om = ObjectPixelated.from_uniform(num_slices=1, obj_type=obj_type, slice_thicknesses=1, rng=make_rng(rng_seed, rng_form))
     with warnings.catch_warnings():
         warnings.simplefilter("ignore")
         pm = ProbePixelated.from_array(num_probes=num_probes, probe_array=tiny_probe(roi, num_probes=num_probes),
-                                       probe_params={"energy": PROBE_ENERGY, "semiangle_cutoff": 20}, rng=rng_seed)
+                                       probe_params={"energy": PROBE_ENERGY, "semiangle_cutoff": 20}, rng=make_rng(rng_seed, rng_form))
         p = Ptychography.from_models(dset=pd, obj_model=om, probe_model=pm, detector_model=DetectorPixelated(),
-                                     rng=rng_seed, verbose=0)
+                                     rng=make_rng(rng_seed, rng_form), verbose=0)
         p.preprocess(obj_padding_px=obj_padding_px, val_ratio=val_ratio, val_mode=val_mode, plot_rotation=False,
                      plot_com=False)
     return p
